@@ -346,6 +346,18 @@ func chooseRequests(r *rec.Rand, s *scen.Scenario, subjects []string, probe func
 		return nil
 	}
 	rec.Shuffle(r, all)
+	if strings.HasPrefix(s.Shape, "c05-") {
+		// the shapes of scen.GenerateC05 are about their derived relations: ask about those first
+		var derived, plain []Req
+		for _, q := range all {
+			if rd := s.Rel(q.Type, q.Rel); rd != nil && rd.RW.Op != "this" {
+				derived = append(derived, q)
+			} else {
+				plain = append(plain, q)
+			}
+		}
+		all = append(derived, plain...)
+	}
 	var many, one, rest []Req
 	for _, q := range all {
 		switch n := probe(q); {
@@ -660,7 +672,13 @@ func main() {
 	r := rec.NewRand(o.Seed)
 	for i := 0; i < o.N; i++ {
 		rr := r.Fork()
-		s := scen.Generate(rr, scen.DefaultOpts())
+		var s *scen.Scenario
+		if i%4 == 3 {
+			// equal-depth multi-path usersets and wide intersections (harness/lib/scen/c05_shapes.go)
+			s = scen.GenerateC05(rr, scen.DefaultOpts())
+		} else {
+			s = scen.Generate(rr, scen.DefaultOpts())
+		}
 		runScenario(ctx, w, rr, sq, s, nil, full)
 	}
 }
